@@ -1061,7 +1061,12 @@ func GenValue(r *simrt.RNG, uniq *int, key []byte) []byte {
 	case 1:
 		return []byte{}
 	case 2:
-		return bytes.Repeat([]byte{byte(*uniq)}, r.Range(100, 400))
+		// sizes on both sides of the thresholds a cache or an encoder might have
+		n := r.Range(100, 400)
+		if r.Chance(1, 4) {
+			n = []int{4095, 4096, 4097, 5000, 16384, 65536 + 7}[r.Intn(6)]
+		}
+		return bytes.Repeat([]byte{byte(*uniq)}, n)
 	case 3:
 		return []byte("same") // repeated value: overwrite with identical content
 	}
